@@ -16,12 +16,12 @@ pub fn scn_wsched(out: &mut TraceOut, r: &mut R, idx: u64, heavy: bool) {
     };
     let (d1, d2) = io::digest(&ref_bytes);
     out.ev(json!({"ev": "WRef", "res": "ok", "len": ref_bytes.len(), "d1": d1, "d2": d2, "cfg": cfg.json(), "n": entries.len()}));
-    let mut policies = vec![Sched::Whole, Sched::OneByte, Sched::LenMinus1, Sched::InterruptFirst];
+    let mut policies = vec![Sched::Whole, Sched::OneByte, Sched::LenMinus1, Sched::InterruptFirst, Sched::OneByteIntr];
     for s in 0..(if heavy { 12 } else { 4 }) {
         policies.push(Sched::Random(idx * 1000 + s + 1));
     }
     if ref_bytes.len() > 300_000 {
-        policies.retain(|p| *p != Sched::OneByte);
+        policies.retain(|p| *p != Sched::OneByte && *p != Sched::OneByteIntr);
     }
     for p in policies {
         io::reset(Sched::Whole, p.clone(), None);
